@@ -316,6 +316,15 @@ func (s *segment) seal() {
 	s.Index.Shrink() // nolint: errcheck
 }
 
+// Unseal marks a sealed segment as not sealed again. This is called on the
+// segment which becomes the active segment when the log is truncated such that
+// it is sealed, and the readers waiting on it are notified, once it is rolled.
+func (s *segment) Unseal() {
+	s.Lock()
+	defer s.Unlock()
+	s.sealed = false
+}
+
 func (s *segment) NextOffset() int64 {
 	s.RLock()
 	defer s.RUnlock()
